@@ -60,7 +60,7 @@ ReplaceRoot ==
     /\ ~dirty /\ nops + 1 < MaxOps
     /\ st.n >= st.k
     /\ \E v \in AllVals :
-          /\ v < D(st.heap[1])
+          /\ v < Dv(st.heap[1])
           /\ st' = SetRoot(st, <<v, 0>>)
           /\ offered' = InsAsc(offered, v)
           /\ hist' = Append(hist, <<2, v>>)
@@ -87,12 +87,12 @@ RetainedInv == Retained(st.k, offered, Ds(st.heap))
 PeekInv == (~dirty /\ st.n > 0) => PeekMax(Ds(st.heap), Peek(st))
 
 RootMaxInv == (~dirty /\ st.n >= st.k) =>
-                 /\ D(st.heap[1]) = MaxD(st.heap)
+                 /\ Dv(st.heap[1]) = MaxD(st.heap)
                  /\ HeapOrdered(st.heap)
 
 (* what heapify is relied upon for: every position except the root is in order *)
 RootOnlyRepair == (dirty /\ st.n >= st.k) =>
-                     \A j \in 2..(Len(st.heap) - 1) : D(At(st.heap, Parent(j))) >= D(At(st.heap, j))
+                     \A j \in 2..(Len(st.heap) - 1) : Dv(At(st.heap, Parent(j))) >= Dv(At(st.heap, j))
 
 ContractInv == TypeOK /\ RetainedInv /\ PeekInv /\ RootMaxInv /\ RootOnlyRepair
 
